@@ -249,6 +249,15 @@ theorem reclaimPass_deletes {st : St} (hI : Inv st) (now : Nat) :
 theorem dropHolder_timeout (st : St) (x : Holder) : (st.dropHolder x).timeout = st.timeout := by
   unfold St.dropHolder; split <;> rfl
 
+theorem clientFree_timeout (st : St) (sid : Nat) : (st.clientFree sid).timeout = st.timeout := by
+  unfold St.clientFree
+  split
+  · rfl
+  · split <;> rfl
+
+theorem releaseHolder_timeout (st : St) (x : Holder) : (st.releaseHolder x).timeout = st.timeout := by
+  unfold St.releaseHolder; rw [clientFree_timeout, dropHolder_timeout]
+
 theorem promote_timeout (st : St) (x : Nat × Nat) (due : Nat) : (st.promote x due).timeout = st.timeout := by
   unfold St.promote; split <;> rfl
 
@@ -268,7 +277,7 @@ theorem retransmit_timeout (st : St) (x : Holder) : (st.retransmit x).timeout = 
   · split
     · split
       · rfl
-      · rw [dropHolder_timeout, flushDelayed_timeout]; rfl
+      · rw [releaseHolder_timeout, flushDelayed_timeout]; rfl
     · rfl
   · rfl
 
@@ -280,7 +289,7 @@ theorem fireAsync_timeout (st : St) (now : Nat) (x : Holder) : (st.fireAsync now
   unfold St.fireAsync
   split
   · split
-    · rw [dropHolder_timeout]; rfl
+    · rw [releaseHolder_timeout]; rfl
     · rfl
   · rfl
 
